@@ -129,6 +129,42 @@ Proof.
     rewrite uniq_In in Hn. apply Hc in Hn. cbn [first_true]. rewrite Hn. lia.
 Qed.
 
+Lemma first_true_true cs n : (first_true cs n < List.length cs)%nat ->
+  exists c, nth_error cs (first_true cs n) = Some c /\ c n = true.
+Proof.
+  induction cs as [|c r IH]; cbn [first_true List.length]; [lia|].
+  destruct (c n) eqn:E; [intros _; exists c; split; [reflexivity|assumption]|].
+  intros H. apply IH. lia.
+Qed.
+
+Lemma segs_nth_In (cs : list (N -> bool)) (segs : list (list N)) :
+  Forall2 (fun c Sg => forall n, In n Sg <-> c n = true) cs segs ->
+  forall k c n, nth_error cs k = Some c -> c n = true -> exists Sg, nth_error segs k = Some Sg /\ In n Sg.
+Proof.
+  induction 1 as [|c0 S0 cs' segs' H0 Hr IH]; intros k c n Hk Hc; [destruct k; discriminate|].
+  destruct k as [|k']; cbn in Hk |- *.
+  - injection Hk as <-. exists S0. split; [reflexivity|now apply H0].
+  - now apply (IH k' c n).
+Qed.
+
+Lemma segs_In_cond (cs : list (N -> bool)) (segs : list (list N)) :
+  Forall2 (fun c Sg => forall n, In n Sg <-> c n = true) cs segs ->
+  forall k Sg n, nth_error segs k = Some Sg -> In n Sg -> exists c, nth_error cs k = Some c /\ c n = true.
+Proof.
+  induction 1 as [|c0 S0 cs' segs' H0 Hr IH]; intros k Sg n Hk Hn; [destruct k; discriminate|].
+  destruct k as [|k']; cbn in Hk |- *.
+  - injection Hk as <-. exists c0. split; [reflexivity|now apply H0].
+  - now apply (IH k' Sg n).
+Qed.
+
+Lemma In_concat_nth {A} (segs : list (list A)) x :
+  In x (concat segs) <-> exists k Sg, nth_error segs k = Some Sg /\ In x Sg.
+Proof.
+  rewrite in_concat. split.
+  - intros (Sg & HS & Hx). apply In_nth_error in HS. destruct HS as (k & Hk). eauto.
+  - intros (k & Sg & Hk & Hx). exists Sg. split; [eapply nth_error_In; eassumption|assumption].
+Qed.
+
 (* ---------------------------------------------------------------- de-duplication of targets *)
 Section Dedup.
   Variable shf : N -> N.
@@ -279,4 +315,320 @@ Section PlanProofs.
     - intros Hl Hg. rewrite Hl in H3. apply Nat.ltb_lt in Hg. rewrite Hg in H3. cbn [andb] in H3.
       destruct lwt_sequence as [|x r]; [discriminate|]. apply N.eqb_eq in H3. subst. now exists r.
   Qed.
+
+  (* ============================================================= the model satisfies the acceptor *)
+  Definition in_rack (n : N) : bool := match crit_rack with Some c => crit_ok c n | None => false end.
+  Definition has_local : bool := match crit_local with Some _ => true | None => false end.
+  Definition conds : list (N -> bool) :=
+    [ fun n => in_rack n && alive n && mem n rep_local;
+      fun n => has_local && alive n && mem n rep_local;
+      fun n => remote_allowed && alive n && mem n rep_any;
+      fun n => in_rack n && alive n && mem n local_nodes;
+      fun n => alive n && mem n local_nodes;
+      fun n => failover_possible && alive n && mem n all_nodes;
+      fun n => enabled n && mem n local_nodes;
+      fun n => failover_possible && enabled n && mem n all_nodes ].
+
+  Lemma group_of_first_true n : group_of n = first_true conds n.
+  Proof.
+    unfold Plan.group_of, Plan.group_with, conds, in_rack, has_local. cbv zeta. cbn [first_true].
+    repeat match goal with |- context [if ?b then _ else _] => destruct b end; reflexivity.
+  Qed.
+
+  Lemma rotate_perm {A} k (l : list A) : Permutation (rotate k l) l.
+  Proof. unfold rotate. rewrite Permutation_app_comm. now rewrite firstn_skipn. Qed.
+
+  Section Model.
+    Hypothesis Hs : sorted_strict g.
+    Hypothesis Hk : forall k s, ks_lookup keyspaces k = Some s -> nts_keys_ok s.
+    Variables (cho : nat -> nat -> nat) (shuf : nat -> list N -> list N).
+    Hypothesis Hshuf : forall site l, Permutation (shuf site l) l.
+
+    Local Notation maybe_shuffled := (maybe_shuffled dcf rackf g keyspaces enabled connected rq shuf).
+    Local Notation round_robin := (round_robin cho).
+    Local Notation fallback := (fallback dcf rackf g keyspaces enabled connected shf pol rq cho shuf).
+
+    Lemma token_strategy_keys t s : token_strategy = Some (t, s) -> nts_keys_ok s.
+    Proof.
+      unfold Plan.token_strategy. destruct (pol_token_aware pol); [|discriminate].
+      destruct (rq_token rq); [|discriminate]. destruct (rq_ks rq) as [k|]; [|discriminate].
+      destruct (ks_lookup keyspaces k) as [s'|] eqn:E; [|discriminate]. intros [= <- <-]. eauto.
+    Qed.
+
+    Lemma ordered_iter_In t s c n : nts_keys_ok s -> In n (reps_ordered t s c) <-> In n (reps_iter t s c).
+    Proof.
+      intros Hok. unfold Plan.reps_ordered, Plan.reps_iter, rset_for.
+      pose proof (ordered_perm dcf rackf g (pre keyspaces) t Hs s (crit_dc c) Hok) as P.
+      split; apply Permutation_in; [assumption|now apply Permutation_sym].
+    Qed.
+
+    Lemma maybe_shuffled_In site t s c n : nts_keys_ok s ->
+      In n (maybe_shuffled site t s c) <-> alive n = true /\ crit_ok c n = true /\ In n (reps_iter t s c).
+    Proof.
+      intros Hok. unfold Plan.maybe_shuffled.
+      assert (G : forall det, In n (filtered_replicas t s c alive det) <->
+                              alive n = true /\ crit_ok c n = true /\ In n (reps_iter t s c)).
+      { intros det. unfold Plan.filtered_replicas. rewrite filter_In, andb_true_iff.
+        destruct det; [rewrite (ordered_iter_In t s c n Hok)|]; tauto. }
+      destruct (rq_lwt rq); [apply G|]. rewrite <- G.
+      split; apply Permutation_in; [apply Hshuf|apply Permutation_sym, Hshuf].
+    Qed.
+
+    Lemma round_robin_In site nodes pred n :
+      In n (round_robin site nodes pred) <-> In n nodes /\ pred n = true.
+    Proof.
+      unfold Plan.round_robin. rewrite filter_In.
+      split; intros [H1 H2]; (split; [|assumption]); revert H1; apply Permutation_in;
+        [apply rotate_perm|apply Permutation_sym, rotate_perm].
+    Qed.
+
+    (* the eight chained groups, as node lists *)
+    Definition seg_replicas : list (list N) :=
+      match token_strategy with
+      | Some (t, s) =>
+          [ match crit_rack with Some c => maybe_shuffled 1 t s c | None => [] end;
+            match crit_local with Some c => maybe_shuffled 2 t s c | None => [] end;
+            if remote_allowed then maybe_shuffled 3 t s CAny else [] ]
+      | None => [ []; []; [] ]
+      end.
+    Definition seg_nodes : list (list N) :=
+      [ match crit_rack with
+        | Some c => round_robin 4 local_nodes (fun n => alive n && crit_ok c n)
+        | None => []
+        end;
+        round_robin 5 local_nodes alive;
+        if failover_possible then round_robin 6 all_nodes alive else [];
+        filter enabled local_nodes;
+        if failover_possible then filter enabled all_nodes else [] ].
+
+    Lemma crit_rack_local c : crit_rack = Some c ->
+      exists d r, c = CRack d r /\ crit_local = Some (CDc d).
+    Proof.
+      unfold Plan.crit_rack, Plan.crit_local. destruct eff_pref as [|d|d r]; try discriminate.
+      intros [= <-]. exists d, r. split; reflexivity.
+    Qed.
+
+    Lemma crit_local_dc c : crit_local = Some c -> exists d, c = CDc d.
+    Proof.
+      unfold Plan.crit_local. destruct (pref_dc eff_pref) as [d|]; [|discriminate]. intros [= <-]. now exists d.
+    Qed.
+
+    Lemma segments_spec :
+      Forall2 (fun c Sg => forall n, In n Sg <-> c n = true) conds (seg_replicas ++ seg_nodes).
+    Proof.
+      unfold conds, seg_replicas, seg_nodes, in_rack, has_local.
+      assert (Hrl : forall t s c, token_strategy = Some (t, s) -> crit_local = Some c -> rep_local = reps_iter t s c).
+      { intros t s c E1 E2. unfold Plan.rep_local. now rewrite E1, E2. }
+      assert (Hra : forall t s, token_strategy = Some (t, s) -> rep_any = reps_iter t s CAny).
+      { intros t s E1. unfold Plan.rep_any. now rewrite E1. }
+      assert (Hrl0 : token_strategy = None -> rep_local = []) by (intros E; unfold Plan.rep_local; now rewrite E).
+      assert (Hra0 : token_strategy = None -> rep_any = []) by (intros E; unfold Plan.rep_any; now rewrite E).
+      assert (Hrl1 : crit_local = None -> rep_local = []).
+      { intros E. unfold Plan.rep_local. rewrite E. now destruct token_strategy as [[? ?]|]. }
+      destruct token_strategy as [[t s]|] eqn:Ets; cbn [app].
+      - pose proof (token_strategy_keys t s Ets) as Hok.
+        repeat (apply Forall2_cons; [intros n; rewrite ?andb_true_iff, ?mem_In|]); try apply Forall2_nil.
+        + destruct crit_rack as [c|] eqn:Ec.
+          * destruct (crit_rack_local c Ec) as (d & r & -> & El).
+            rewrite (maybe_shuffled_In _ _ _ _ _ Hok), (Hrl t s _ eq_refl El). unfold Plan.reps_iter, rset_for. cbn [crit_dc]. tauto.
+          * split; [intros []|intros [[C _] _]; discriminate].
+        + destruct crit_local as [c|] eqn:Ec.
+          * destruct (crit_local_dc c Ec) as (d & ->).
+            rewrite (maybe_shuffled_In _ _ _ _ _ Hok), (Hrl t s _ eq_refl eq_refl). cbn [Plan.crit_ok]. tauto.
+          * split; [intros []|intros [[C _] _]; discriminate].
+        + destruct remote_allowed.
+          * rewrite (maybe_shuffled_In _ _ _ _ _ Hok), (Hra t s eq_refl). cbn [Plan.crit_ok]. tauto.
+          * split; [intros []|intros [[C _] _]; discriminate].
+        + destruct crit_rack as [c|]; [rewrite round_robin_In, andb_true_iff; tauto|split; [intros []|intros [[C _] _]; discriminate]].
+        + rewrite round_robin_In. tauto.
+        + destruct failover_possible; [rewrite round_robin_In; tauto|split; [intros []|intros [[C _] _]; discriminate]].
+        + rewrite filter_In. tauto.
+        + destruct failover_possible; [rewrite filter_In; tauto|split; [intros []|intros [[C _] _]; discriminate]].
+      - rewrite (Hrl0 eq_refl), (Hra0 eq_refl).
+        repeat (apply Forall2_cons; [intros n; rewrite ?andb_true_iff, ?mem_In|]); try apply Forall2_nil.
+        + split; [intros []|intros [_ []]].
+        + split; [intros []|intros [_ []]].
+        + split; [intros []|intros [_ []]].
+        + destruct crit_rack as [c|]; [rewrite round_robin_In, andb_true_iff; tauto|split; [intros []|intros [[C _] _]; discriminate]].
+        + rewrite round_robin_In. tauto.
+        + destruct failover_possible; [rewrite round_robin_In; tauto|split; [intros []|intros [[C _] _]; discriminate]].
+        + rewrite filter_In. tauto.
+        + destruct failover_possible; [rewrite filter_In; tauto|split; [intros []|intros [[C _] _]; discriminate]].
+    Qed.
+
+    Lemma fallback_structure :
+      fallback = map (with_shard shf) (uniq (concat seg_replicas)) ++
+                 map no_shard (filter (fun n => negb (mem n (concat seg_replicas))) (uniq (concat seg_nodes))).
+    Proof.
+      unfold Plan.fallback. rewrite <- dedup_chain. f_equal. f_equal.
+      - unfold Plan.fb_replicas, seg_replicas. destruct token_strategy as [[t s]|]; [|reflexivity].
+        cbn [concat]. rewrite app_nil_r. reflexivity.
+      - unfold Plan.fb_nodes, seg_nodes. cbn [concat]. rewrite app_nil_r. reflexivity.
+    Qed.
+
+    Lemma fallback_nodes : map fst fallback = uniq (concat (seg_replicas ++ seg_nodes)).
+    Proof.
+      rewrite fallback_structure, concat_app, map_app, !map_map. cbn [with_shard no_shard fst].
+      rewrite !map_id. unfold uniq at 3. rewrite (uniq_by_app N.eqb Neqb_eq). reflexivity.
+    Qed.
+
+    (* ---- every group member is enabled and permitted; every enabled permitted node is in the
+            last two groups *)
+    Lemma all_nodes_In n : In n all_nodes <-> exists e, In e g /\ snd e = n.
+    Proof. unfold Plan.all_nodes, unique_nodes. rewrite uniq_In, in_map_iff. split; intros (e & H1 & H2); eauto. Qed.
+
+    Lemma dc_nodes_In d n : In n (unique_nodes (dc_ring dcf g d)) <-> In n all_nodes /\ in_dc dcf d n = true.
+    Proof.
+      unfold unique_nodes at 1. rewrite uniq_In, in_map_iff, all_nodes_In. split.
+      - intros (e & <- & He). apply dc_ring_In in He. destruct He as [He Hd]. split; [exists e; split; [assumption|reflexivity]|assumption].
+      - intros [(e & He & <-) Hd]. exists e. split; [reflexivity|]. apply dc_ring_In. tauto.
+    Qed.
+
+    Lemma local_nodes_ok n : In n local_nodes ->
+      In n all_nodes /\ (forall d, restricted_dc = Some d -> in_dc dcf d n = true).
+    Proof.
+      unfold Plan.local_nodes, Plan.restricted_dc. destruct (pref_dc eff_pref) as [d|].
+      - rewrite dc_nodes_In. intros [H1 H2]. split; [assumption|]. intros d'.
+        destruct (pol_failover pol); [discriminate|]. now intros [= <-].
+      - intros H. split; [assumption|discriminate].
+    Qed.
+
+    Lemma failover_unrestricted : failover_possible = true -> restricted_dc = None.
+    Proof.
+      unfold Plan.failover_possible, Plan.restricted_dc. destruct (pref_dc eff_pref); [|reflexivity].
+      now intros ->.
+    Qed.
+
+    Lemma remote_unrestricted : remote_allowed = true -> restricted_dc = None.
+    Proof.
+      unfold Plan.remote_allowed. pose proof failover_unrestricted as H. unfold Plan.restricted_dc in *.
+      unfold Plan.failover_possible in *. destruct (pref_dc eff_pref); [|reflexivity]. exact H.
+    Qed.
+
+    Lemma reps_iter_ok t s c n : In n (reps_iter t s c) ->
+      In n all_nodes /\ (forall d, crit_dc c = Some d -> in_dc dcf d n = true).
+    Proof.
+      unfold Plan.reps_iter, rset_for. intros H. split.
+      - apply (iter_in_walk dcf rackf g (pre keyspaces) t Hs) in H. rewrite uniq_In, ring_range_In in H.
+        unfold Plan.all_nodes, unique_nodes. now apply uniq_In.
+      - intros d Hd. rewrite Hd, dc_filter in H. apply filter_In in H. tauto.
+    Qed.
+
+    Lemma rep_local_ok n : In n rep_local ->
+      In n all_nodes /\ (forall d, restricted_dc = Some d -> in_dc dcf d n = true).
+    Proof.
+      unfold Plan.rep_local. destruct token_strategy as [[t s]|]; [|intros []].
+      destruct crit_local as [c|] eqn:Ec; [|intros []]. destruct (crit_local_dc c Ec) as (d & ->).
+      intros H. apply reps_iter_ok in H. destruct H as [H1 H2]. split; [assumption|].
+      intros d' Hd'. unfold Plan.crit_local in Ec. unfold Plan.restricted_dc in Hd'.
+      destruct (pref_dc eff_pref) as [d0|]; [|discriminate]. injection Ec as <-.
+      destruct (pol_failover pol); [discriminate|]. injection Hd' as <-. now apply H2.
+    Qed.
+
+    Lemma rep_any_ok n : In n rep_any -> In n all_nodes.
+    Proof.
+      unfold Plan.rep_any. destruct token_strategy as [[t s]|]; [|intros []].
+      intros H. now apply reps_iter_ok in H.
+    Qed.
+
+    Lemma alive_enabled n : alive n = true -> enabled n = true.
+    Proof. unfold Plan.alive. now intros H%andb_true_iff. Qed.
+
+    Lemma cond_ok n : (exists c, In c conds /\ c n = true) -> enabled n = true /\ permitted n = true.
+    Proof.
+      intros (c & Hc & E). unfold conds in Hc. cbn [In] in Hc.
+      assert (Hperm : forall m, In m all_nodes -> (forall d, restricted_dc = Some d -> in_dc dcf d m = true) -> permitted m = true).
+      { intros m H1 H2. unfold Plan.permitted, Plan.permitted_with. rewrite andb_true_iff, mem_In. split; [assumption|].
+        destruct restricted_dc as [d|]; [now apply H2|reflexivity]. }
+      destruct Hc as [<-|[<-|[<-|[<-|[<-|[<-|[<-|[<-|[]]]]]]]]]; rewrite ?andb_true_iff, ?mem_In in E.
+      - destruct E as [[_ Ha] Hr]. split; [now apply alive_enabled|]. apply rep_local_ok in Hr. now apply Hperm.
+      - destruct E as [[_ Ha] Hr]. split; [now apply alive_enabled|]. apply rep_local_ok in Hr. now apply Hperm.
+      - destruct E as [[Hra Ha] Hr]. split; [now apply alive_enabled|]. apply rep_any_ok in Hr.
+        apply Hperm; [assumption|]. rewrite (remote_unrestricted Hra). discriminate.
+      - destruct E as [[_ Ha] Hr]. split; [now apply alive_enabled|]. apply local_nodes_ok in Hr. now apply Hperm.
+      - destruct E as [Ha Hr]. split; [now apply alive_enabled|]. apply local_nodes_ok in Hr. now apply Hperm.
+      - destruct E as [[Hf Ha] Hr]. split; [now apply alive_enabled|]. apply Hperm; [assumption|].
+        rewrite (failover_unrestricted Hf). discriminate.
+      - destruct E as [He Hr]. split; [assumption|]. apply local_nodes_ok in Hr. now apply Hperm.
+      - destruct E as [[Hf He] Hr]. split; [assumption|]. apply Hperm; [assumption|].
+        rewrite (failover_unrestricted Hf). discriminate.
+    Qed.
+
+    Lemma ok_in_last_groups n : enabled n = true -> permitted n = true ->
+      In n (filter enabled local_nodes) \/ (failover_possible = true /\ In n (filter enabled all_nodes)).
+    Proof.
+      intros He Hp. unfold Plan.permitted, Plan.permitted_with in Hp. apply andb_true_iff in Hp.
+      destruct Hp as [Hin Hr]. apply mem_In in Hin. rewrite !filter_In.
+      unfold Plan.local_nodes, Plan.restricted_dc, Plan.failover_possible in *.
+      destruct (pref_dc eff_pref) as [d|]; [|left; tauto].
+      destruct (pol_failover pol); [right; tauto|]. left. split; [|assumption]. apply dc_nodes_In. tauto.
+    Qed.
+
+    Lemma concat_segs_cond n :
+      In n (concat (seg_replicas ++ seg_nodes)) <-> exists c, In c conds /\ c n = true.
+    Proof.
+      rewrite In_concat_nth. split.
+      - intros (k & Sg & Hk & Hn). destruct (segs_In_cond _ _ segments_spec k Sg n Hk Hn) as (c & Hc & E).
+        exists c. split; [eapply nth_error_In; eassumption|assumption].
+      - intros (c & Hc & E). apply In_nth_error in Hc. destruct Hc as (k & Hk).
+        destruct (segs_nth_In _ _ segments_spec k c n Hk E) as (Sg & HS & Hn). eauto.
+    Qed.
+
+    Lemma lwt_sequence_segs : rq_lwt rq = true -> lwt_sequence = uniq (concat seg_replicas).
+    Proof.
+      intros Hl. unfold Plan.lwt_sequence, seg_replicas, Plan.maybe_shuffled. rewrite Hl.
+      destruct token_strategy as [[t s]|]; [|reflexivity]. cbn [concat]. now rewrite app_nil_r.
+    Qed.
+
+    Lemma seg_replicas_length : List.length seg_replicas = 3%nat.
+    Proof. unfold seg_replicas. now destruct token_strategy as [[? ?]|]. Qed.
+
+    Lemma replica_group_iff n : In n (concat (seg_replicas ++ seg_nodes)) ->
+      ((group_of n < 3)%nat <-> In n (concat seg_replicas)).
+    Proof.
+      intros Hin. rewrite group_of_first_true. split.
+      - intros Hlt. destruct (first_true_true conds n) as (c & Hc & E); [unfold conds at 2; cbn [List.length]; lia|].
+        destruct (segs_nth_In _ _ segments_spec _ c n Hc E) as (Sg & HS & Hn).
+        apply In_concat_nth. exists (first_true conds n), Sg. split; [|assumption].
+        rewrite nth_error_app1 in HS by (rewrite seg_replicas_length; assumption). assumption.
+      - intros H. apply In_concat_nth in H. destruct H as (k & Sg & Hk & Hn).
+        assert (Hk3 : (k < 3)%nat) by (rewrite <- seg_replicas_length; apply nth_error_Some; congruence).
+        assert (Hk' : nth_error (seg_replicas ++ seg_nodes) k = Some Sg) by (rewrite nth_error_app1; [assumption|rewrite seg_replicas_length; assumption]).
+        destruct (segs_In_cond _ _ segments_spec k Sg n Hk' Hn) as (c & Hc & E).
+        pose proof (first_true_nth conds n k c Hc E). lia.
+    Qed.
+
+    (* plans made of the nodes of a duplicate-free list sorted by group that has exactly the
+       members of the chain and whose replica part is the chained replica part *)
+    Lemma fallback_matches : plan_matches (map fst fallback) = true.
+    Proof.
+      rewrite fallback_nodes. set (F := uniq (concat (seg_replicas ++ seg_nodes))).
+      assert (HF : forall n, In n F <-> exists c, In c conds /\ c n = true).
+      { intros n. unfold F. rewrite uniq_In. apply concat_segs_cond. }
+      unfold Plan.plan_matches. cbv zeta. fold all_nodes. change (permitted_with all_nodes) with permitted.
+      change (group_with all_nodes local_nodes rep_local rep_any) with group_of.
+      rewrite !andb_true_iff. repeat split.
+      - apply nodupb_spec, uniq_NoDup.
+      - apply forallb_forall. intros n Hn. apply HF, cond_ok in Hn. destruct Hn as [-> ->]. reflexivity.
+      - apply forallb_forall. intros n Hn. apply filter_In in Hn. destruct Hn as [_ Hn].
+        apply andb_true_iff in Hn. destruct Hn as [He Hp]. apply mem_In, HF.
+        destruct (ok_in_last_groups n He Hp) as [H|[Hf H]]; apply filter_In in H; destruct H as [H1 H2].
+        + exists (fun n => enabled n && mem n local_nodes). split; [unfold conds; cbn; tauto|].
+          rewrite H2. cbn. now apply mem_In.
+        + exists (fun n => failover_possible && enabled n && mem n all_nodes). split; [unfold conds; cbn; tauto|].
+          rewrite Hf, H2. cbn. now apply mem_In.
+      - rewrite (map_ext _ _ group_of_first_true). apply uniq_concat_sorted, segments_spec.
+      - destruct (rq_lwt rq) eqn:Hl; [|reflexivity]. apply list_eqb_spec. rewrite (lwt_sequence_segs Hl).
+        unfold F. rewrite concat_app. unfold uniq at 1. rewrite (uniq_by_app N.eqb Neqb_eq), filter_app.
+        fold (uniq (concat seg_replicas)). fold (uniq (concat seg_nodes)).
+        rewrite (filter_id_all _ (uniq (concat seg_replicas))), (filter_nil_all _ (filter _ (uniq (concat seg_nodes)))).
+        + now rewrite app_nil_r.
+        + intros n Hn. apply filter_In in Hn. destruct Hn as [Hn Hm].
+          apply negb_true_iff, (mem_by_false N.eqb Neqb_eq) in Hm. apply Nat.ltb_ge.
+          destruct (Nat.lt_ge_cases (group_of n) 3) as [Hlt|]; [|assumption]. exfalso. apply Hm.
+          apply replica_group_iff; [|assumption]. rewrite concat_app. apply in_or_app. right. now apply uniq_In in Hn.
+        + intros n Hn. apply Nat.ltb_lt. rewrite uniq_In in Hn. apply replica_group_iff; [|assumption].
+          rewrite concat_app. apply in_or_app. now left.
+    Qed.
+  End Model.
 End PlanProofs.
